@@ -32,6 +32,7 @@ package types
 //@ pred SigOK(sh) := Signed(pkraw(sh.Signer.PubKey.val), Payload(HdrOf(sh)), val(sh.Signature))
 
 //@ func (sh *SignedHeader) ValidateBasic() (err)
+//@   property C04
 //@   property C01 C03
 //@   ensures [basic] err == nil ==> (len(sh.ProposerAddress) > 0 && len(sh.Signature) > 0
 //@                       && val(sh.ProposerAddress) == val(sh.Signer.Address) && SigOK(sh) && sh.Signer.PubKey != nil)
@@ -50,6 +51,7 @@ package types
 //@ pred TimeOfU64(u) := ite(u < 9223372036854775808, u, u - 18446744073709551616)
 
 //@ func Validate(header, data) (err)
+//@   property C04 C05
 //@   property C01 C02
 //@   requires [non-nil] header != nil && data != nil
 //@   ensures [matches] err == nil <==> DataMatchesHeader(header, data)
@@ -67,6 +69,7 @@ package types
 // the list can be read back from it), the data hash that of the receiver itself, and the header
 // hash is sha256 of the header's own encoding.
 //@ func leafHashOpt(s, leaf) (r)
+//@   property C02 C06 C07
 //@   property C01 C03 C12
 //@   requires [hasher] s != nil
 //@   observe rs := call Reset
@@ -78,6 +81,7 @@ package types
 //@   assumes [leaf-hash] val(r) == LeafHash(val(leaf)) && len(r) == 32
 
 //@ func (d *Data) DACommitment() (r)
+//@   property C02 C06 C07
 //@   property C01 C03 C12
 //@   observe mb := call MarshalBinary
 //@   observe lh := call leafHashOpt
@@ -86,6 +90,7 @@ package types
 
 //@ spec func HashData(Int, DMeta) Bytes
 //@ func (d *Data) Hash() (r)
+//@   property C02
 //@   property C01 C03 C12
 //@   observe mb := call MarshalBinary
 //@   observe lh := call leafHashOpt
@@ -93,6 +98,7 @@ package types
 //@   assumes [hash] val(r) == HashData(TxsId(d.Txs), DMetaOf(d)) && len(r) == 32
 
 //@ func (h *Header) Hash() (r)
+//@   property C02 C06 C07
 //@   property C01 C03 C12
 //@   observe mb := call MarshalBinary
 //@   observe s2 := call Sum256
@@ -155,12 +161,14 @@ package types
 //@                       ite(p.Version != nil, p.Version.Block, 0), ite(p.Version != nil, p.Version.App, 0))
 
 //@ func (h *Header) ToProto() (p)
+//@   property C06 C14
 //@   property C12
 //@   nopanic
 //@   fresh p
 //@   ensures [fields] p != nil && p.Version != nil && PbHdrOf(p) == HdrOf(h)
 
 //@ func (h *Header) FromProto(other) (err)
+//@   property C06 C14
 //@   property C12 C09
 //@   nopanic
 //@   modifies h.*
@@ -171,12 +179,14 @@ package types
 //@ pred PbMetaOf(p) := DMeta(true, p.ChainId, p.Height, p.Time, val(p.LastDataHash))
 
 //@ func (m *Metadata) ToProto() (p)
+//@   property C06 C14
 //@   property C12
 //@   nopanic
 //@   fresh p
 //@   ensures [fields] p != nil && PbMetaOf(p) == MetaOf(m)
 
 //@ func (m *Metadata) FromProto(other) (err)
+//@   property C06 C14
 //@   property C12 C09
 //@   nopanic
 //@   modifies m.*
@@ -200,6 +210,7 @@ package types
 //@   loop 1 invariant [len] len(txs) == len(bytes) && rangeindex >= -1
 
 //@ func (d *Data) ToProto() (p)
+//@   property C06 C14
 //@   property C12
 //@   nopanic
 //@   fresh p
@@ -207,6 +218,7 @@ package types
 //@   ensures [meta] (d.Metadata == nil <==> p.Metadata == nil) && (d.Metadata != nil ==> PbMetaOf(p.Metadata) == MetaOf(d.Metadata))
 
 //@ func (d *Data) FromProto(other) (err)
+//@   property C06 C14
 //@   property C12 C09
 //@   nopanic
 //@   modifies d.*, heap "types.Metadata.ChainID", heap "types.Metadata.Height", heap "types.Metadata.Time", heap "types.Metadata.LastDataHash"
@@ -215,6 +227,7 @@ package types
 //@   ensures [meta] err == nil ==> (other.Metadata == nil <==> d.Metadata == nil) && (other.Metadata != nil ==> MetaOf(d.Metadata) == PbMetaOf(other.Metadata))
 
 //@ func (sh *SignedHeader) ToProto() (p, err)
+//@   property C06 C14
 //@   property C12
 //@   nopanic
 //@   fresh p
@@ -223,6 +236,7 @@ package types
 //@   ensures [signer-address-kept] err == nil ==> val(p.Signer.Address) == val(sh.Signer.Address)
 
 //@ func (sh *SignedHeader) FromProto(other) (err)
+//@   property C06 C14
 //@   property C12 C09 C03
 //@   nopanic
 //@   modifies sh.*
@@ -235,6 +249,7 @@ package types
 //@   ensures [no-signer] err == nil && other.Signer == nil ==> len(sh.Signer.Address) == 0
 
 //@ func (sd *SignedData) ToProto() (p, err)
+//@   property C06
 //@   property C12
 //@   nopanic
 //@   fresh p
@@ -243,6 +258,7 @@ package types
 //@   ensures [signer-address-kept] err == nil ==> val(p.Signer.Address) == val(sd.Signer.Address)
 
 //@ func (sd *SignedData) FromProto(other) (err)
+//@   property C06
 //@   property C12 C09 C03
 //@   nopanic
 //@   modifies sd.*, heap "types.Metadata.ChainID", heap "types.Metadata.Height", heap "types.Metadata.Time", heap "types.Metadata.LastDataHash"
@@ -258,12 +274,14 @@ package types
 //@                       ite(p.LastBlockTime != nil, p.LastBlockTime.tval, 0), p.DaHeight, val(p.LastResultsHash), val(p.AppHash))
 
 //@ func (s *State) ToProto() (p, err)
+//@   property C14 C04 C05
 //@   property C12
 //@   nopanic
 //@   fresh p
 //@   ensures [fields] err == nil && p != nil && p.LastBlockTime != nil && p.Version != nil && PbStateOf(p) == StateOf(s)
 
 //@ func (s *State) FromProto(other) (err)
+//@   property C14 C04 C05
 //@   property C12
 //@   nopanic
 //@   modifies s.*
